@@ -77,7 +77,7 @@ def main(tier):
                 fmt_ = r.choice(LIST_FORMATS * 3 + ['xml', 'JSON', 'Txt'])      # format names are case sensitive in the library
                 exposure = r.random() < 0.3
                 focus = ''
-                if r.random() < 0.3 and W['workloads']:
+                if r.random() < 0.45 and W['workloads']:
                     w = r.choice(W['workloads'])
                     focus = r.choice([w['name'], w['ns'] + '/' + w['name'], 'nosuch', 'default/' + w['name'], 'default/' + w['name']])
                 args = ['list', '--dirpath', d, '-o', fmt_] + (['--exposure'] if exposure else []) + (['--focusworkload', focus] if focus else []) + flags
